@@ -97,7 +97,7 @@ func runC18(c *Ctx) {
 	}
 	if f := c.Fn("C18-R1", "sample", "NewSampler"); f != nil {
 		g := c.G(f)
-		seed := paramObj(f, "seed")
+		seed := paramAt(f, 4) // (temperature, topK, topP, minP, seed, grammar)
 		news := g.FindCalls("math/rand/v2.New", "math/rand.New")
 		c.Expect("C18-R1", "generator constructions in NewSampler", len(news), 1)
 		for _, h := range news {
@@ -165,7 +165,7 @@ func runC18(c *Ctx) {
 				// rhs int32(i) where i is the key of a range over logits, lhs tokens[i].id
 				okI := false
 				for _, rl := range rangeLoops(fn) {
-					if within(rl.Stmt, a) && rl.Over == paramObj(fn, "logits") {
+					if within(rl.Stmt, a) && rl.Over == paramAt(fn, 0) {
 						if kid, isK := rl.Stmt.Key.(*ast.Ident); isK {
 							conv, isConv := ast.Unparen(a.Rhs[0]).(*ast.CallExpr)
 							if isConv && len(conv.Args) == 1 && core.UsesObj(info, conv.Args[0], info.Defs[kid]) {
@@ -190,7 +190,11 @@ func runC18(c *Ctx) {
 		nV := 0
 		for _, h := range g.Find(func(n ast.Node) bool {
 			a, ok := n.(*ast.AssignStmt)
-			return ok && len(a.Lhs) == 1 && core.LastField(info, a.Lhs[0]) == fVal && strings.HasPrefix(core.ExprString(a.Rhs[0]), "logits[")
+			if !ok || len(a.Lhs) != 1 || core.LastField(info, a.Lhs[0]) != fVal {
+				return false
+			}
+			ix, isIx := ast.Unparen(a.Rhs[0]).(*ast.IndexExpr)
+			return isIx && core.UsesObj(info, ix.X, paramAt(f, 0))
 		}) {
 			nV++
 			pair := false
@@ -205,9 +209,14 @@ func runC18(c *Ctx) {
 		// tokens is a fresh slice of this call
 		fresh := false
 		ast.Inspect(f.Body, func(n ast.Node) bool {
-			if a, ok := n.(*ast.AssignStmt); ok && a.Tok == token.DEFINE && len(a.Lhs) == 1 && core.ExprString(a.Lhs[0]) == "tokens" {
-				if call, isC := ast.Unparen(a.Rhs[0]).(*ast.CallExpr); isC && core.CalleeName(info, call) == "builtin.make" && strings.Contains(core.ExprString(call.Args[1]), "len(logits)") {
-					fresh = true
+			if a, ok := n.(*ast.AssignStmt); ok && a.Tok == token.DEFINE && len(a.Lhs) == 1 && len(a.Rhs) == 1 {
+				// the slice whose elements get the ids
+				if call, isC := ast.Unparen(a.Rhs[0]).(*ast.CallExpr); isC && core.CalleeName(info, call) == "builtin.make" && len(call.Args) >= 2 {
+					if sl, isSl := info.TypeOf(call).Underlying().(*types.Slice); isSl && core.ObjNameOfType(sl.Elem()) == "sample.token" {
+						if p, isLen := isLenOf(info, call.Args[1]); isLen && p.Root == paramAt(f, 0) && len(p.Fields) == 0 {
+							fresh = true
+						}
+					}
 				}
 			}
 			return true
@@ -290,13 +299,23 @@ func runC18(c *Ctx) {
 		ast.Inspect(f.Body, func(n ast.Node) bool {
 			switch x := n.(type) {
 			case *ast.AssignStmt:
-				if x.Tok == token.DEFINE && len(x.Lhs) == 1 && core.ExprString(x.Rhs[0]) == "tokens[0]" {
-					okInit = true
-					maxObj = info.Defs[x.Lhs[0].(*ast.Ident)]
+				if x.Tok == token.DEFINE && len(x.Lhs) == 1 && len(x.Rhs) == 1 {
+					if ix, isIx := ast.Unparen(x.Rhs[0]).(*ast.IndexExpr); isIx && core.UsesObj(info, ix.X, paramAt(f, 0)) {
+						if v, isC := core.ConstInt(info, ix.Index); isC && v == 0 {
+							okInit = true
+							maxObj = info.Defs[x.Lhs[0].(*ast.Ident)]
+						}
+					}
 				}
 			case *ast.IfStmt:
-				if be, ok := ast.Unparen(x.Cond).(*ast.BinaryExpr); ok && (be.Op == token.GTR || be.Op == token.GEQ) && core.LastField(info, be.X) == fVal && core.LastField(info, be.Y) == fVal && maxObj != nil && core.UsesObj(info, be.Y, maxObj) {
-					okCmp = true
+				if be, ok := ast.Unparen(x.Cond).(*ast.BinaryExpr); ok && core.LastField(info, be.X) == fVal && core.LastField(info, be.Y) == fVal && maxObj != nil {
+					// candidate > max  (or max < candidate)
+					if (be.Op == token.GTR || be.Op == token.GEQ) && core.UsesObj(info, be.Y, maxObj) && !core.UsesObj(info, be.X, maxObj) {
+						okCmp = true
+					}
+					if (be.Op == token.LSS || be.Op == token.LEQ) && core.UsesObj(info, be.X, maxObj) && !core.UsesObj(info, be.Y, maxObj) {
+						okCmp = true
+					}
 				}
 			case *ast.ReturnStmt:
 				if id, ok := ast.Unparen(x.Results[0]).(*ast.Ident); ok && info.Uses[id] == maxObj {
